@@ -128,6 +128,7 @@ type c19Bitmap struct {
 	r64, r64t, r128 []int32
 	sidx            []int32
 	pos             []int32
+	posShuf         []int32 // the same positions in shuffled order (Of with an explicit size accepts any order)
 	ones            int
 }
 
@@ -200,6 +201,12 @@ func c19Build(seed int64, a *c19Arena) *c19Corpus {
 			r128 = append(r128, cnt)
 		}
 		b.words, b.r64, b.r64t, b.r128, b.sidx, b.pos, b.ones = a.words(ws), a.i32(r64), a.i32(r64t), a.i32(r128), a.i32(sidx), a.i32(pos), int(cnt)
+		shuf := append([]int32(nil), pos...)
+		for k := len(shuf) - 1; k > 0; k-- {
+			j := r.Intn(k + 1)
+			shuf[k], shuf[j] = shuf[j], shuf[k]
+		}
+		b.posShuf = a.i32(shuf)
 		if b.ones > 0 {
 			c.sel = append(c.sel, len(c.bms))
 		}
@@ -322,6 +329,7 @@ func (c *c19Corpus) digest() uint64 {
 		hi(b.r128)
 		hi(b.sidx)
 		hi(b.pos)
+		hi(b.posShuf)
 	}
 	for _, l := range c.keyLists {
 		for _, s := range l {
